@@ -18,7 +18,12 @@ func fingerprintsQuery(ctx *shared.PlannerContext, matchers ...*labels.Matcher) 
 		matcher := parser.LabelMatcher{Node: _matcher}
 		labelNames = append(labelNames, matcher.GetLabel())
 		ops = append(ops, matcher.GetOp())
-		values = append(values, matcher.GetVal())
+		val := matcher.GetVal()
+		if _matcher.Type == labels.MatchRegexp || _matcher.Type == labels.MatchNotRegexp {
+			// Prometheus regular expressions are fully anchored; ClickHouse match() searches.
+			val = "^(?:" + val + ")$"
+		}
+		values = append(values, val)
 	}
 	plannerStreamSelect := logql_transpiler.NewStreamSelectPlanner(labelNames, ops, values)
 
